@@ -184,6 +184,31 @@ func runC07(o *opts) (*summary, error) {
 	return w.close(), nil
 }
 
+// runC16Seg: C16's segment rule - SetTimeProfile (valid dates, all three segments present) over all ordered pairs of an
+// HH:mm set that holds the day's boundaries, equal pairs and neighbours one minute apart
+func runC16Seg(o *opts) (*summary, error) {
+	w, err := newShardWriter(o.out, "api", o.shards)
+	if err != nil {
+		return nil, err
+	}
+	rng := rand.New(rand.NewSource(o.seed))
+	g := &G{r: rng, inDomain: true}
+	u, d := stubClient(stubCfgs[1])
+	hh := []int{0, 1, 2, 59, 60, 61, 119, 120, 8 * 60, 8*60 + 29, 8*60 + 30, 8*60 + 31, 9 * 60, 11*60 + 59, 12 * 60, 12*60 + 1, 17 * 60, 22*60 + 59, 23 * 60, 23*60 + 1, 23*60 + 58, 23*60 + 59, 1440}
+	if o.tier == "thorough" {
+		for i := 0; i < 40; i++ {
+			hh = append(hh, rng.Intn(1441))
+		}
+	}
+	for _, s := range hh {
+		for _, e := range hh {
+			cs := timeProfileCall(g, false, false, 0, s, e)
+			w.put(doCall(u, d, cs), "segment-rule", argKey(cs))
+		}
+	}
+	return w.close(), nil
+}
+
 func timeProfileCall(g *G, fromZero, toZero bool, missing, s, e int) callSpec {
 	serial := g.serial()
 	from, pf := g.date(false)
